@@ -98,7 +98,10 @@ def one_input(run, bench, rng, raw, sampled):
         pads.append(("pre:" + k, pre, b""))
         k2, pre2 = hostile(rng, used, rng.choice([13, 21, 40]))
         pads.append(("longpre:" + k2, pre2, b""))
-        if base[0] == "ok" and can_post:
+        if (base[0] == "ok" or st == "ok") and can_post:
+            # (when the reference model says the region [0, extent) is a complete valid input, the outcome must not
+            #  depend on bytes appended after it even if the library rejects it: rejecting alone and accepting with
+            #  more bytes behind is context dependence too)
             k3, post = hostile(rng, used, rng.choice([1, 2, 4, 9]))
             pads.append(("post:" + k3, b"", post))
             k4, pre4 = hostile(rng, used, rng.choice([1, 4, 7]))
@@ -139,6 +142,13 @@ def one_input(run, bench, rng, raw, sampled):
                     run.count("raw_slice_equivalence")
             else:
                 # failing input: same failure, offsets shifted
+                if post and got[0] == "ok":
+                    run.count("suffix_changes_outcome")
+                    run.violation("an input that is complete per the declaration is rejected alone but accepted when bytes are appended after it (%s)" % label,
+                                  dict(witness, alone=repr(base)[:200]), None)
+                    continue
+                if post:
+                    continue
                 if got[0] != "packeterror":
                     run.violation("an input that fails alone is accepted (or fails differently) behind a prefix (%s): %s" % (label, got[0]), witness, None)
                     continue
